@@ -385,6 +385,35 @@ Definition C08_sched_no_deadlock : Prop :=
        (g_readers st <> O -> exists i c, nth_error (g_reqs st) i = Some c /\ in_read_cs c = true /\
                                          cstep true first kept st (TReq i) <> st)).
 
+(* "never alters delivery to the hub": after every schedule the blocks processed are a prefix of the
+   script, the hub is the hub alone fed with them, and the events fanned out or still pending are its
+   events, in order: no subscription, receive or drop occurs in them *)
+Definition C08_sched_hub_unaffected : Prop :=
+  forall first kept h0 script reqs sched,
+    let st := crun true first kept (cinit h0 script reqs) sched in
+    let ops := map snd (serial st) in
+    (exists rest, script = blocks ops ++ rest) /\
+    g_hub st = hub_after first kept h0 (blocks ops) /\
+    fans ops ++ pend_of st = push_events first kept h0 (blocks ops).
+
+(* end to end: once everything has finished (script processed, every request returned, every channel
+   drained) a registered subscription that was not dropped has received exactly its burst — the
+   burst of the hub after the blocks [before] its registration — followed by every event of every
+   later block of the script; a dropped one a strict prefix of that *)
+Definition C08_sched_complete_delivery : Prop :=
+  forall first kept h0 script reqs sched p i,
+    let st := crun true first kept (cinit h0 script reqs) sched in
+    finished st -> nth_error (g_order st) p = Some i ->
+    exists c s before after burst,
+      nth_error (g_reqs st) i = Some c /\ r_sub c = Some s /\
+      script = before ++ after /\
+      let h1 := hub_after first kept h0 before in
+      request_burst h1 (r_req c) = Some burst /\
+      (ms_dropped s = false -> r_got c = burst ++ map QEv (push_events first kept h1 after)) /\
+      (ms_dropped s = true ->
+         exists evs1 e evs2, push_events first kept h1 after = evs1 ++ e :: evs2 /\
+                             r_got c = burst ++ map QEv evs1).
+
 (* ---------------------------------------------------------------- the unfixed code *)
 
 (* without subscribersLock (fixed = false) a schedule of two requesters loses a registration: both
